@@ -1075,8 +1075,46 @@ def _rules_scan_template(prog, res, f, m=None):
                          ("end", "S-end", "loop exit returns (len, None)")):
         if not seen[k]:
             res.ob(rule, "scan | " + txt, False, "no such return found", loc())
-    # S-skip: the NotValid arm goes back to the loop header without a return and without stores
+    # an accepted or incomplete candidate always ends the scan: from the Ok arm / the Incomplete arm of the match on new()'s result the loop
+    # header is not reachable (a second test on the Ok arm that `continue`s - a look at the byte after the frame - skips a valid frame)
     adt = prog.adts[ERR]
+    inc_idx = [v_["idx"] for v_ in adt["variants"] if v_["name"] == "Incomplete"]
+
+    def _reaches_header(start):
+        seen_, st_ = set(), [start]
+        while st_:
+            y = st_.pop()
+            if y == header:
+                return True
+            if y in seen_:
+                continue
+            seen_.add(y)
+            st_.extend(f.succ(y))
+        return False
+    if header is not None:
+        found_ok = found_inc = False
+        ok_final = inc_final = True
+        for b in sorted(f.reachable()):
+            t = f.term(b)
+            if t["k"] != "switch":
+                continue
+            c = fa.op_term(t["discr"], (b, len(f.blocks[b]["stmts"])))
+            if c is rd:
+                arms_ = dict((v_, tb) for v_, tb in t["arms"])
+                tgt_ = arms_.get(0, t.get("otherwise") if 1 in arms_ else None)
+                if tgt_ is not None:
+                    found_ok = True
+                    ok_final = ok_final and not _reaches_header(tgt_)
+            if c is errd and inc_idx:
+                for v_, tb in t["arms"]:
+                    if v_ == inc_idx[0]:
+                        found_inc = True
+                        inc_final = inc_final and not _reaches_header(tb)
+        res.ob("S-ok", "scan | an accepted candidate always ends the scan (no path from the Ok arm back into the loop)", found_ok and ok_final,
+               "" if found_ok else "no match on the result of new() found", loc())
+        res.ob("S-inc", "scan | an incomplete candidate always ends the scan (no path from the Incomplete arm back into the loop)", found_inc and inc_final,
+               "" if found_inc else "no match on the error variant found", loc())
+    # S-skip: the NotValid arm goes back to the loop header without a return and without stores
     nv = [v_["idx"] for v_ in adt["variants"] if v_["name"] == "NotValid"]
     skip_ok = False
     detail = "no switch on the error variant found"
